@@ -121,7 +121,8 @@ impl EightChar {
         term = term.next(m);
       }
       let solar_time: SolarTime = term.get_julian_day().get_solar_time();
-      if solar_time.get_year() >= start_year {
+      // the month that starts at this Jie may reach into January of start_year: filter by the candidate's year below
+      if solar_time.get_year() >= start_year - 1 {
         // 日干支和节令干支的偏移值
         let mut solar_day: SolarDay = solar_time.get_solar_day();
         let d: isize = self.day.next(-(solar_day.get_lunar_day().get_sixty_cycle().get_index() as isize)).get_index() as isize;
@@ -139,7 +140,7 @@ impl EightChar {
           }
           let time: SolarTime = SolarTime::from_ymd_hms(solar_day.get_year(), solar_day.get_month(), solar_day.get_day(), hour, mi, s);
           // 验证一下
-          if time.get_lunar_hour().get_eight_char() == *self {
+          if time.get_year() >= start_year && time.get_lunar_hour().get_eight_char() == *self {
             l.push(time);
           }
         }
